@@ -71,7 +71,7 @@ def err_class(e):
     return type(e).__name__
 
 
-def observe(sel, X, axis, scale=1):
+def observe(sel, X, axis, scale=1, data_scale=1):
     """Everything public the FPS family reports after a fit, as exact integers.
     `scale` multiplies distances (PCov-FPS with mixing k/4 is compared as 4*K~)."""
     o = {}
@@ -88,23 +88,24 @@ def observe(sel, X, axis, scale=1):
     except Exception as e:  # noqa
         o["seld"] = []
         o["seld_err"] = err_class(e)
-    xs = np.asarray(sel.X_selected_, float)
+    xs = np.asarray(sel.X_selected_, float) * data_scale
     if axis == 1:
         xs = xs.T
     o["xsel"] = C.as_int_matrix(xs, "X_selected_") if xs.size else [[] for _ in range(xs.shape[0])]
     if hasattr(sel, "y_selected_") and axis == 0:
-        o["ysel"] = C.as_int_matrix(np.asarray(sel.y_selected_, float).reshape(len(sel.y_selected_), -1), "y_selected_")
+        o["ysel"] = C.as_int_matrix(np.asarray(sel.y_selected_, float).reshape(len(sel.y_selected_), -1) * data_scale, "y_selected_")
     else:
         o["ysel"] = []
     o["support"] = [bool(b) for b in sel.get_support()]
     o["sorted"] = [int(i) for i in sel.get_support(indices=True)]
     o["ordered"] = [int(i) for i in sel.get_support(indices=True, ordered=True)]
     if axis == 1:
-        o["transform"] = C.as_int_matrix(np.asarray(sel.transform(X), float).T, "transform")
+        o["transform"] = C.as_int_matrix(np.asarray(sel.transform(X), float).T * data_scale, "transform")
     return o
 
 
-def run_chain(kind, axis, Xrows, y, init, stages, extra=None, scale=1, observe_fn=observe):
+def run_chain(kind, axis, Xrows, y, init, stages, extra=None, scale=1, observe_fn=observe, prefit=None,
+              data_scale=1):
     """Fit a chain: stage 0 cold, later stages warm-started.
     stage = dict(nts=<None|int|float>, thr=<None|(num,den)>, thr_type='absolute'|'relative').
     Returns list of per-stage dicts with 'obs' or 'error'."""
@@ -114,6 +115,15 @@ def run_chain(kind, axis, Xrows, y, init, stages, extra=None, scale=1, observe_f
     if init is not None:
         kw["initialize"] = init
     sel = make_selector(kind, axis, **kw)
+    if prefit is not None:
+        # an earlier cold fit of the same object on other data (history)
+        sel.n_to_select = prefit["nts"]
+        with warnings.catch_warnings():
+            warnings.simplefilter("ignore")
+            if prefit.get("y") is None:
+                sel.fit(np.array(prefit["X"], dtype=float))
+            else:
+                sel.fit(np.array(prefit["X"], dtype=float), np.array(prefit["y"], dtype=float))
     out = []
     for si, st in enumerate(stages):
         thr = st.get("thr")
@@ -130,7 +140,7 @@ def run_chain(kind, axis, Xrows, y, init, stages, extra=None, scale=1, observe_f
                 else:
                     sel.fit(X, Y, warm_start=(si > 0))
                 rec["stopped"] = any("Score threshold" in str(x.message) for x in w)
-                rec["obs"] = observe_fn(sel, X, axis, scale)
+                rec["obs"] = observe_fn(sel, X, axis, scale, data_scale) if data_scale != 1 else observe_fn(sel, X, axis, scale)
             except C.InexactOutput:
                 raise
             except Exception as e:  # noqa
